@@ -69,6 +69,19 @@ def _gen_long_dense(rng):
             'text': common.dense_text(ast), 'cls': 'ct_off'}
 
 
+def _modular(rng, ast, bp):
+    """the same requirement written with named sub-specifications: returns (text, subspecs-or-None)"""
+    if sg.size(ast) < 4:
+        return ('out = ' + sg.to_text(ast, sg.Spelling(rng), bp) + ';'), None
+    defs, top = sg.modularize(rng, ast, max_subs=3, prefer_stateful=rng.random() < 0.5)
+    sp = sg.Spelling(rng)
+    subs = ['%s = %s;' % (nm, sg.to_text(a, sp, bp)) for nm, a in defs]
+    text = 'out = ' + sg.to_text(top, sp, bp) + ';'
+    if rng.random() < 0.5:
+        return '\n'.join(subs + [text]), None
+    return text, subs
+
+
 def _gen(rng, tier):
     if rng.random() < 0.003:
         return _gen_long_dense(rng)
@@ -91,8 +104,9 @@ def _gen(rng, tier):
         signals = dict((v, world.gen_dense_signal(rng, rng.randint(2, 8), start_q=0 if zero else rng.randint(0, 4),
                                                    max_gap_q=rng.choice([2, 4, 6]))[0]) for v in vars_)
         percuts = [dict((v, rng.randint(1, len(signals[v]))) for v in vars_) for _ in range(6)]
-        return {'dense': True, 'vars': vars_, 'ast': ast, 'signals': signals, 'percuts': percuts,
-                'text': common.dense_text(ast, sg.Spelling(rng)), 'cls': rng.choice(['ct_off', 'ct_off', 'ct'])}
+        text, subspecs = _modular(rng, ast, common.dense_bounds) if rng.random() < 0.2 else (common.dense_text(ast, sg.Spelling(rng)), None)
+        return {'dense': True, 'vars': vars_, 'ast': ast, 'signals': signals, 'percuts': percuts, 'subspecs': subspecs,
+                'text': text, 'cls': rng.choice(['ct_off', 'ct_off', 'ct'])}
     n = rng.randint(2, 24 if big else 14)
     data = world.gen_trace(rng, vars_, n)
     notation = units.gen_notation(rng, p_plain=0.75)       # bounds written with explicit units, sampling period in another unit
@@ -101,9 +115,12 @@ def _gen(rng, tier):
     except ValueError:
         notation = units.plain_notation()
         text = 'out = ' + sg.to_text(ast, sg.Spelling(rng)) + ';'
+    subspecs = None
+    if units.notation_class(notation) == 'plain' and rng.random() < 0.25:
+        text, subspecs = _modular(rng, ast, None)
     # the object that evaluates the long log has a history: it was used before under a sampling period k times as long
     prior_factor = rng.choice([2, 3, 10]) if rng.random() < 0.15 else None
-    return {'past_off': rng.random() < 0.08, 'dense': False, 'vars': vars_, 'ast': ast, 'n': n, 'data': data, 'notation': notation, 'prior_factor': prior_factor,
+    return {'subspecs': subspecs, 'past_off': rng.random() < 0.08, 'dense': False, 'vars': vars_, 'ast': ast, 'n': n, 'data': data, 'notation': notation, 'prior_factor': prior_factor,
             'text': text, 'cls': rng.choice(['dt_off', 'dt_off', 'dt'])}
 
 
@@ -124,6 +141,9 @@ def run(sc):
         h = 0
     text = sc['text'] or (common.dense_text(ast) if sc['dense'] else 'out = ' + sg.to_text(ast) + ';')
     desc = {'cls': sc['cls'], 'vars': common.var_decls(sc['vars']), 'spec': text}
+    if sc.get('text') and (sc.get('subspecs') or '\n' in text):
+        desc['subspecs'] = sc.get('subspecs') or []
+        r.probes['modular_specification'] += 1
     if nt:
         desc.update(units.spec_config(nt))
         if units.notation_class(nt) != 'plain':
@@ -157,6 +177,9 @@ def run(sc):
                 pre = [p[1] for p in M.dt_evaluate(M.build(desc), stamps[:m], dict((v, data[v][:m]) for v in data))]
                 r.api_calls += 3
                 r.sim_time += m
+                if len(pre) != m or len(full) != n:
+                    r.violate('one-value-per-sample', spec=text, data=data, cut=m, got_prefix=len(pre), got_extension=len(full))
+                    return r
                 settled = [t for t in range(m) if t + h < m]
                 for t in settled:
                     r.evals += 1
